@@ -35,12 +35,12 @@ type reqSpec struct {
 	// yet when the request is enqueued (its goroutine is late); it runs right after the call
 	BeforeRollover bool `json:"arrives_before_the_due_rollover_runs,omitempty"`
 	// observations
-	Result  string `json:"result,omitempty"`  // immediate | released | expired | full
-	DoneMs  int64  `json:"done_ms,omitempty"` // instant of return
-	ParkMs  int64  `json:"park_ms,omitempty"`
-	ExpMs   int64  `json:"expiry_ms,omitempty"`
-	Queued  bool   `json:"queued,omitempty"`
-	RetMs   int64  `json:"returned_ms,omitempty"` // when the enqueuer goroutine returned (>= done_ms for a parked one)
+	Result string `json:"result,omitempty"`  // immediate | released | expired | full
+	DoneMs int64  `json:"done_ms,omitempty"` // instant of return
+	ParkMs int64  `json:"park_ms,omitempty"`
+	ExpMs  int64  `json:"expiry_ms,omitempty"`
+	Queued bool   `json:"queued,omitempty"`
+	RetMs  int64  `json:"returned_ms,omitempty"` // when the enqueuer goroutine returned (>= done_ms for a parked one)
 }
 
 type scenario struct {
